@@ -244,3 +244,30 @@ def sany(module):
     out = p.stdout.decode("utf-8", "replace")
     ok = p.returncode == 0 and "Semantic errors" not in out and "Parse Error" not in out and "Fatal" not in out
     return ok, out
+
+
+# ---------------------------------------------------------------------------------- behaviour helpers
+def nums(txt):
+    return [int(x) for x in re.findall(r"-?\d+", txt)]
+
+
+def bools(txt):
+    return [x == "TRUE" for x in re.findall(r"TRUE|FALSE", txt)]
+
+
+def actor(txt, names):
+    """<<"sub", 2>> -> names["sub"] % 2 ; tick / - -> None"""
+    m = re.match(r'<<"([\w-]+)", (\d+)>>', txt.strip())
+    kind, n = m.group(1), int(m.group(2))
+    if kind in ("tick", "-"):
+        return None
+    nm = names[kind]
+    return nm % n if "%d" in nm else nm
+
+
+def hist(txt):
+    return [[a, int(b), int(c)] for a, b, c in re.findall(r'<<"(\w+)", (-?\d+), (\d+)>>', txt)]
+
+
+def schedule_of(beh, names):
+    return [n for n in (actor(s[1]["actor"], names) for s in beh[1:]) if n]
